@@ -39,7 +39,7 @@ InRange(r, hi) == IsNaN(r) \/ (RLe(<<0, 1>>, r) /\ RLe(r, <<hi, 1>>))
 Laws ==
   (Complete /\ ~done) =>
     /\ \A p, q \in P : Distance(T, p, q) = Distance(T, q, p)
-    /\ \A p \in P : LET d == Distance(T, p, p) IN IsNaN(d) \/ d = <<0, 1>>
+    /\ \A p \in P : Distance(T, p, p) = <<0, 1>>
     /\ \A p, q \in P : InRange(Distance(T, p, q), 1)
     /\ InRange(Divergence(T), 1)
     /\ \A S \in SUBSET P : InRange(Coverage(T, S), 100) /\ InRange(AvgCoverage(T, S), 100)
